@@ -1,5 +1,6 @@
 /- Line-protocol driver for C06 (glyph names, encodings, ToUnicode, simple fonts). -/
 import PdfVerif.Spec.SimpleFontTables
+import PdfVerif.Lemmas.Type1Roundtrip
 
 open PdfVerif PdfVerif.SimpleFont PdfVerif.SimpleFont.Inst
 
@@ -165,6 +166,60 @@ def parseFont (ws : List String) : Option RawFontDict := do
   some { isType3 := isT3, baseFont := baseFont, enc := enc, toUnicode := tu, firstChar := fc,
          widths := widths, desc := desc, fontMatrix := fm }
 
+
+/-! ### `t1write`: spelled Type 1 headers (the writer of theorem `t1_roundtrip`) -/
+open PdfVerif.Lexer in
+def parseSep (w : String) : Option (List SepItem) :=
+  if w == "-" then some [] else
+  (w.splitOn ",").mapM (fun it =>
+    match it.toList with
+    | 'w' :: h => match bytesOfHexChars h with | some [c] => some (SepItem.ws c) | _ => none
+    | 'c' :: r =>
+      match (String.ofList r).splitOn ":" with
+      | [b, e] => match bytesOfHex b, bytesOfHex e with
+        | some body, some [eol] => some (SepItem.comment body eol)
+        | _, _ => none
+      | _ => none
+    | _ => none)
+
+open PdfVerif.Lexer in
+def parseSpelledName (w : String) : Option (List NameItem) :=
+  if w == "-" then some [] else
+  (w.splitOn ",").mapM (fun it =>
+    match it.toList with
+    | 'r' :: h => match bytesOfHexChars h with | some [c] => some (NameItem.raw c) | _ => none
+    | 'e' :: h => match bytesOfHexChars h with | some [a, b] => some (NameItem.esc a b) | _ => none
+    | _ => none)
+
+def parseSign (w : String) : Option Bytes :=
+  if w == "n" then some [] else if w == "p" then some [43] else if w == "m" then some [45] else none
+
+def parseHeaderItem (w : String) : Option HeaderItem :=
+  match w.splitOn "|" with
+  | ["P", sg, ds, nm, a, b, c, d] => do
+    let sign ← parseSign sg
+    let name ← parseSpelledName nm
+    let g1 ← parseSep a
+    let g2 ← parseSep b
+    let g3 ← parseSep c
+    let g4 ← parseSep d
+    some (.put { sign := sign, digits := ds.toUTF8.toList, name := name, g1 := g1, g2 := g2, g3 := g3, g4 := g4 })
+  | ["W", hx, g] => do
+    let bs ← bytesOfHex hx
+    let g ← parseSep g
+    match bs with
+    | c :: w => some (.word c w g)
+    | [] => none
+  | ["N", sg, ds, g] => do
+    let sign ← parseSign sg
+    let g ← parseSep g
+    some (.num sign ds.toUTF8.toList g)
+  | _ => none
+
+def showPuts (ps : List (Int × Option Name)) : String :=
+  if ps.isEmpty then "-" else " ".intercalate (ps.map (fun p => toString p.1 ++ ":" ++
+    (match p.2 with | some n => showNameArg n | none => "b")))
+
 def codes256 : List Int := (List.range 256).map Int.ofNat
 
 def showTable (f : Int → Option Text) : String :=
@@ -233,6 +288,13 @@ def handle (line : String) : String :=
             cpsStr (Spec.specText tables fd c) ++ "|" ++ ratToString (Spec.specWidth tables fd c)
           else "?"))
     | none => "bad-op"
+  | "t1write" :: padw :: itemws =>
+    -- the header `writeHeader` writes for a spelling, and the right-hand side of theorem `t1_roundtrip`
+    match parseSep padw, itemws.mapM parseHeaderItem with
+    | some pad, some items =>
+      hexOrDash (writeHeader pad items) ++ " " ++
+        showPuts ((itemResults items).map (fun r => (r.1, utf8Chars r.2)))
+    | _, _ => "bad-op"
   | ["t1puts", hx] =>
     match bytesOfHex hx with
     | some bs =>
